@@ -1,1 +1,127 @@
-/-! Property theorems for C15 — placeholder until the property's model is built. -/
+import FcpptProofs.C15.Bytes
+/-!
+# C15 — textual and binary encodings round-trip losslessly: property theorems
+
+Model: `FcpptModel/Model/C15/*.lean`, meanings: `FcpptModel/Spec/C15.lean`, lemmas: `FcpptProofs/C15/*.lean`.
+-/
+namespace Fcppt.C15
+
+/-! ## byte order (`reverse_mem`, `endianness::swap/convert`, `io::write/read`) -/
+
+/-- The index loop of `reverse_mem.cpp` never leaves the buffer and reverses it (every length, every element type). -/
+theorem reverse_mem_is_reverse {α : Type} (d : List α) : reverseMem d = .ok d.reverse :=
+  reverseMem_eq_reverse d
+
+theorem reverse_involutive {α : Type} (d : List α) : (reverseMem d >>= reverseMem) = .ok d := by
+  simp [reverseMem_eq_reverse, bind, Except.bind]
+
+/-- `swap(swap(v)) = v` for every value of every integer type of `bytes ≥ 1` bytes, on either kind of machine. -/
+theorem swap_swap (native : Endian) (t : IntTy) (v : Int) (ht : 0 < t.bytes) (hv : t.InRange v) :
+    (swap native t v >>= swap native t) = .ok v := by
+  simp only [swap_eq, bind, Except.bind]
+  rw [objRep_ofObjRep native t _ ht (by simp), List.reverse_reverse, ofObjRep_objRep native t v ht hv]
+
+/-- `swap` stays inside the type (it is a permutation of the type's values). -/
+theorem swap_in_range (native : Endian) (t : IntTy) (v : Int) (ht : 0 < t.bytes) :
+    ∃ r, swap native t v = .ok r ∧ t.InRange r :=
+  ⟨_, swap_eq native t v, ofObjRep_inRange native t _ ht (by simp)⟩
+
+/-- `convert(convert(v, e), e) = v` for both values of `e` (host → format → host). -/
+theorem convert_roundtrip (native : Endian) (t : IntTy) (v : Int) (e : Endian) (ht : 0 < t.bytes) (hv : t.InRange v) :
+    (convert native t v e >>= fun x => convert native t x e) = .ok v := by
+  unfold convert
+  by_cases h : e = native
+  · simp [h, bind, Except.bind, pure, Except.pure]
+  · simp only [if_neg h]; exact swap_swap native t v ht hv
+
+/-- The bytes `io::write` emits for `std::endian::big` are the base-256 digits of the value's (two's complement)
+bits, most significant first — whatever the machine's own order is; they are appended to what the stream held. -/
+theorem write_bytes_big_is_msb_first (native : Endian) (t : IntTy) (s : List Byte) (v : Int) (ht : 0 < t.bytes) (hv : t.InRange v) :
+    ∃ out, write native t s v .big = .ok (s ++ out) ∧ out.map Fin.val = Spec.beDigits t.bytes (Spec.twos t.bits v) := by
+  rw [← toU_eq_twos t v ht hv, beDigits_eq_reverse, ← leBytes_map_val]
+  cases native
+  · refine ⟨(leBytes t.bytes (toU t v)).reverse, ?_, by simp⟩
+    simp only [write, convert, swap_eq, bind, Except.bind, pure, Except.pure, if_neg (by decide : Endian.big ≠ Endian.little)]
+    rw [objRep_ofObjRep _ t _ ht (by simp)]; simp [objRep]
+  · exact ⟨(leBytes t.bytes (toU t v)).reverse, by simp [write, convert, objRep, bind, Except.bind, pure, Except.pure], by simp⟩
+
+/-- … and least significant first for `std::endian::little`. -/
+theorem write_bytes_little_is_lsb_first (native : Endian) (t : IntTy) (s : List Byte) (v : Int) (ht : 0 < t.bytes) (hv : t.InRange v) :
+    ∃ out, write native t s v .little = .ok (s ++ out) ∧ out.map Fin.val = Spec.leDigits t.bytes (Spec.twos t.bits v) := by
+  rw [← toU_eq_twos t v ht hv, ← leBytes_map_val]
+  cases native
+  · exact ⟨leBytes t.bytes (toU t v), by simp [write, convert, objRep, bind, Except.bind, pure, Except.pure], rfl⟩
+  · refine ⟨leBytes t.bytes (toU t v), ?_, rfl⟩
+    simp only [write, convert, swap_eq, bind, Except.bind, pure, Except.pure, if_neg (by decide : Endian.little ≠ Endian.big)]
+    rw [objRep_ofObjRep _ t _ ht (by simp)]; simp [objRep]
+
+/-- The digit lists of the two theorems above determine the number (so the byte layout loses nothing):
+Horner evaluation gives back the `8·n`-bit pattern. -/
+theorem digits_value (n x : Nat) (hx : x < 256 ^ n) :
+    Spec.ofBE (Spec.beDigits n x) = x ∧ Spec.ofLE (Spec.leDigits n x) = x := by
+  rw [spec_ofBE_beDigits, spec_ofLE_leDigits, Nat.mod_eq_of_lt hx]; exact ⟨rfl, rfl⟩
+
+/-- `io::write` then `io::read` in the same byte order gives the value back, consumes exactly what was written and
+leaves the rest of the stream alone: every width, signedness, byte order, machine and value. -/
+theorem read_write_roundtrip (native : Endian) (t : IntTy) (v : Int) (e : Endian) (rest : List Byte)
+    (ht : 0 < t.bytes) (hv : t.InRange v) :
+    ∃ out, write native t [] v e = .ok out ∧ out.length = t.bytes ∧ read native t (out ++ rest) e = .ok (some v, rest) := by
+  obtain ⟨x, hx⟩ : ∃ x, convert native t v e = .ok x := by
+    unfold convert; split
+    · exact ⟨_, rfl⟩
+    · exact ⟨_, swap_eq native t v⟩
+  have hback : convert native t x e = .ok v := by
+    have := convert_roundtrip native t v e ht hv
+    simpa [hx, bind, Except.bind] using this
+  have hxr : t.InRange x := by
+    unfold convert at hx; split at hx
+    · cases hx; exact hv
+    · rw [swap_eq] at hx; cases hx; exact ofObjRep_inRange native t _ ht (by simp)
+  refine ⟨objRep native t x, by simp [write, hx, bind, Except.bind, pure, Except.pure], by simp, ?_⟩
+  unfold read
+  rw [if_neg (by simp)]
+  simp only [List.take_left' (length_objRep native t x), List.drop_left' (length_objRep native t x),
+    ofObjRep_objRep native t x ht hxr, hback, bind, Except.bind, pure, Except.pure]
+
+/-- A stream that holds fewer than `sizeof(Type)` bytes never yields a value (no value from a partial read). -/
+theorem read_short_input_fails (native : Endian) (t : IntTy) (s : List Byte) (e : Endian) (h : s.length < t.bytes) :
+    read native t s e = .ok (none, []) := by
+  simp [read, h, pure, Except.pure]
+
+/-- Conversely a value is only ever produced from `sizeof(Type)` bytes, it is a value of the type, and writing it
+reproduces exactly the bytes that were read (reading loses nothing either). -/
+theorem read_some_complete (native : Endian) (t : IntTy) (s : List Byte) (e : Endian) (ht : 0 < t.bytes) :
+    t.bytes ≤ s.length →
+    ∃ v, read native t s e = .ok (some v, s.drop t.bytes) ∧ t.InRange v ∧ write native t [] v e = .ok (s.take t.bytes) := by
+  intro hl
+  have hlen : (s.take t.bytes).length = t.bytes := by simp; omega
+  have hr : t.InRange (ofObjRep native t (s.take t.bytes)) := ofObjRep_inRange native t _ ht hlen
+  unfold read
+  rw [if_neg (by omega)]
+  by_cases h : e = native
+  · refine ⟨ofObjRep native t (s.take t.bytes), by simp [convert, h, bind, Except.bind, pure, Except.pure], hr, ?_⟩
+    simp [write, convert, h, bind, Except.bind, pure, Except.pure, objRep_ofObjRep native t _ ht hlen]
+  · refine ⟨ofObjRep native t (objRep native t (ofObjRep native t (s.take t.bytes))).reverse, ?_, ?_, ?_⟩
+    · simp [convert, h, swap_eq, bind, Except.bind, pure, Except.pure]
+    · exact ofObjRep_inRange native t _ ht (by simp)
+    · simp only [write, convert, if_neg h, swap_eq, bind, Except.bind, pure, Except.pure, List.nil_append]
+      rw [objRep_ofObjRep native t _ ht hlen]
+      have h2 : ((s.take t.bytes).reverse).length = t.bytes := by rw [List.length_reverse]; exact hlen
+      rw [objRep_ofObjRep native t _ ht h2, List.reverse_reverse, objRep_ofObjRep native t _ ht hlen]
+
+/-! ### non-vacuity: concrete values on the little-endian machine of the sandbox -/
+
+def u32 : IntTy := ⟨4, false⟩
+def i16 : IntTy := ⟨2, true⟩
+
+example : write .little u32 [] 0x01020304 .big = .ok [1, 2, 3, 4] := by decide
+example : write .little u32 [] 0x01020304 .little = .ok [4, 3, 2, 1] := by decide
+example : write .little i16 [] (-2) .big = .ok [0xFF, 0xFE] := by decide
+example : read .little i16 [0xFF, 0xFE, 7] .big = .ok (some (-2), [7]) := by decide
+example : read .little u32 [1, 2, 3] .big = .ok (none, []) := by decide
+example : swap .little i16 1 = .ok 256 := by decide
+example : swap .little i16 128 = .ok (-32768) := by decide
+example : reverseMem [1, 2, 3, 4, 5] = .ok [5, 4, 3, 2, 1] := by decide
+example : u32.InRange 0x01020304 ∧ i16.InRange (-2) := by decide
+
+end Fcppt.C15
